@@ -22,7 +22,13 @@ partial def jToJson : J → Json
 def oracleOf (j : Json) : PyOracle :=
   let stmtT : List (String × Json) := match j.getObjVal? "stmt" with | .ok (.obj kvs) => kvs.toList | _ => []
   let callT : List (String × Json) := match j.getObjVal? "call" with | .ok (.obj kvs) => kvs.toList | _ => []
-  { stmt := fun code =>
+  let exprT : List (String × Json) := match j.getObjVal? "expr" with | .ok (.obj kvs) => kvs.toList | _ => []
+  { expr := fun code =>
+      match exprT.lookup (String.ofList code) with
+      | some (.str "ok") => .ok
+      | some (.str "bad") => .bad
+      | _ => .miss
+    stmt := fun code =>
       match stmtT.lookup (String.ofList code) with
       | some (.str "ok") => .ok
       | some (.str "complex") => .tooComplex
